@@ -325,9 +325,9 @@ for side in ("left", "right"):
             EDITS.append(((side, key), v))
     EDITS.append(((side, "unknown_key"), 1))
 for v in [[2, -2], [0, 0], [1], [], [1, 2, 3], [3, 2, 1], [1.0, 2.0], ["a", "b"], [True, 2], [None, 1], [2 ** 70, 2 ** 71], None, "<del>", 5, {},
-          "@grid_a", "@grid_bad", "@grid_b", "@grid_1band", "@grid_3band", "@missing", "@not_raster", "none", "NaN", [-3, 3]]:
+          "@grid_a", "@grid_bad", "@grid_bad_nodata", "@grid_ok_nodata", "@grid_b", "@grid_1band", "@grid_3band", "@missing", "@not_raster", "none", "NaN", [-3, 3]]:
     EDITS.append((("left", "disp"), v))
-for v in [None, "<del>", [-2, 2], [], 5, {}, "@grid_a_right", "@grid_bad", "@grid_b", "@grid_1band", "@missing", "none", True]:
+for v in [None, "<del>", [-2, 2], [], 5, {}, "@grid_a_right", "@grid_bad", "@grid_bad_nodata", "@grid_ok_nodata", "@grid_b", "@grid_1band", "@missing", "none", True]:
     EDITS.append((("right", "disp"), v))
 EDITS.append((("right", "img"), "@img_b"))
 EDITS.append((("left", "img"), "@img_b"))
@@ -511,7 +511,7 @@ def mains(env: Env, report):
             p["matching_cost"]["band"] = "g"
         main_case(env, report, {"input": copy.deepcopy(b), "pipeline": p}, ["well_formed"])
     bad_edits = [(("left", "disp"), [2, -2]), (("left", "disp"), [1]), (("left", "img"), "@missing"), (("right", "img"), "@img_b"),
-                 (("left", "mask"), "@mask_b"), (("left", "nodata"), 1.5), (("right", "disp"), [-2, 2]), (("left", "disp"), "@grid_bad"),
+                 (("left", "mask"), "@mask_b"), (("left", "nodata"), 1.5), (("right", "disp"), [-2, 2]), (("left", "disp"), "@grid_bad"), (("left", "disp"), "@grid_bad_nodata"),
                  (("left", "disp"), "<del>"), (("right", "segm"), "none")]
     for path, value in bad_edits:
         main_case(env, report, {"input": apply_edit(BASES["list"], path, value), "pipeline": copy.deepcopy(pipe)},
